@@ -390,6 +390,30 @@ func (r *Runner) Run(p *Program) error {
 	}
 	for i := 0; i < len(p.Ops); i++ {
 		o := p.Ops[i]
+		if o.Op == "crashnow" || o.Op == "powernow" {
+			// the process dies (or the power fails) between two calls: the run goes on in an image of this instant
+			if r.Mode == "seq" || r.FS == nil {
+				continue
+			}
+			save := r.Mode
+			if o.Op == "powernow" {
+				r.Mode = "power"
+			} else {
+				r.Mode = "crash"
+			}
+			r.inHook = true
+			oc := o
+			r.crashAt = &oc
+			r.chooseTarget(r.FS.Snapshot(), nil)
+			r.inHook = false
+			r.Mode = save
+			if err := r.continueIn(r.target, r.tgtLossy); err != nil {
+				return err
+			}
+			r.closedWin = false
+			r.between()
+			continue
+		}
 		if o.Op == "crashat" || o.Op == "powerat" {
 			if r.Mode == "seq" || i+1 >= len(p.Ops) {
 				continue
@@ -410,6 +434,10 @@ func (r *Runner) Run(p *Program) error {
 		if err != nil && r.S.Cfg.Strict && !(o.Op == "put" && ErrKind(err) == "toolarge") {
 			return err
 		}
+		if err != nil && (o.Op == "open" || o.Op == "reopen" || o.Op == "tear" || r.S.DB == nil) {
+			// no database to go on with: the recording ends here (the failed Open is in it)
+			return err
+		}
 		if r.crashAt != nil {
 			// the operation had fewer calls than asked for: the process dies right after it
 			r.inHook = true
@@ -424,7 +452,13 @@ func (r *Runner) Run(p *Program) error {
 		if o.Op == "close" {
 			r.closedWin = true
 			r.between()
-			return nil
+			if i+1 >= len(p.Ops) {
+				return nil
+			}
+			continue
+		}
+		if o.Op == "open" {
+			r.closedWin = false
 		}
 		r.between()
 		if r.ReadEvery && isMutating(o.Op) {
